@@ -68,6 +68,12 @@ CHECK_DEADLOCK FALSE
 """ % maxlen
 
 
+def short(x, n=160):
+    """long generated strings (runs of slashes) are abbreviated in messages; the replay file has the case"""
+    x = str(x)
+    return x if len(x) <= n else "%s...<%d bytes>...%s" % (x[:n // 2], len(x), x[-n // 2:])
+
+
 def feature(ps):
     if ".." in ps["comps"]:
         return "dotdot"
@@ -198,8 +204,8 @@ def report(ctx, obs, verdicts, fam):
         arg = b["arg"]
         exp = b["exp"]
         what = "%s(%s%s): handler saw %s; reference: %s" % (
-            o["case"]["sc"], repr(o["s1"]), (", " + repr(o["s2"])) if len(exp) == 2 else "",
-            [(s["c"], s["raw"]) for s in o["seen"]],
+            o["case"]["sc"], repr(short(o["s1"])), (", " + repr(short(o["s2"]))) if len(exp) == 2 else "",
+            [(s["c"], short(s["raw"])) for s in o["seen"]],
             [{"paths": ["/" + "/".join(p) for p in e["paths"]] if e["judged"] else "unjudged",
               "classes": e["classes"]} for e in exp])
         ctx.violation(key_of(b["j"], o, arg), what, o)
@@ -211,7 +217,8 @@ def report(ctx, obs, verdicts, fam):
     for k in (0, len(obs) // 2, len(obs) - 1):
         o = obs[k]
         ctx.sample({"sc": o["case"]["sc"], "forest": o["case"]["f"], "cwd": o["case"]["cwd"], "d1": o["case"]["d1"],
-                    "path": o["s1"], "seen": [(s["c"], s["raw"]) for s in o["seen"]], "truth": o["truth"]})
+                    "path": short(o["s1"]), "mem": o["case"]["p1"]["mem"],
+                    "seen": [(s["c"], short(s["raw"])) for s in o["seen"]], "truth": o["truth"]})
     ctx.assumptions += [
         "the kernel's answer is taken from open(O_PATH[|O_NOFOLLOW]) + readlink(/proc/self/fd/N) by the probe itself, and a real create+remove when the last component is missing",
         "calls the kernel would fail before touching an object (ENOENT/ENOTDIR in the middle, ELOOP, EBADF) and walks that leave the forest top are not judged on the path, only on the class and the number of consultations",
